@@ -169,7 +169,9 @@ pub fn run(outdir: &Path, tier: &str, seed: u64, shards: usize, _replay: Option<
                 std::fs::create_dir_all(work.join("gen/deep")).unwrap();
                 std::fs::create_dir_all(work.join("sub/dir")).unwrap();
                 std::fs::write(work.join("schema.graphql"), p.schema.render_sdl()).unwrap();
-                let qtext = p.doc.render();
+                // one document in four is written with CR LF line endings: the file's bytes are the QUERY constant
+                let crlf = rng.chance(1, 4);
+                let qtext = if crlf { p.doc.render().replace('\n', "\r\n") } else { p.doc.render() };
                 // one time in four the query path named on the command line is a symbolic link to a file of another
                 // name in another directory: the destination is derived from the path as given
                 let via_symlink = rng.chance(1, 4);
@@ -251,7 +253,7 @@ pub fn run(outdir: &Path, tier: &str, seed: u64, shards: usize, _replay: Option<
                         lib.coq,
                         coq::b(old_untouched)
                     ),
-                    desc: json!({"argv": a.argv(), "program_kind": kind, "exit_ok": exit_ok, "written": written, "expected_destination": dest_rel, "pre_existing_destination": pre_existing, "query_path_is_symlink": via_symlink, "after_unformatted_run": after_unformatted,
+                    desc: json!({"argv": a.argv(), "program_kind": kind, "exit_ok": exit_ok, "written": written, "expected_destination": dest_rel, "pre_existing_destination": pre_existing, "query_path_is_symlink": via_symlink, "crlf_document": crlf, "after_unformatted_run": after_unformatted,
                                  "stderr": out.as_ref().map(|o| String::from_utf8_lossy(&o.stderr).chars().take(200).collect::<String>()).unwrap_or_default()}),
                     key: format!("{:?}|{}|{}", a.argv(), kind, n),
                     nontrivial: true,
@@ -269,7 +271,7 @@ pub fn run(outdir: &Path, tier: &str, seed: u64, shards: usize, _replay: Option<
         preludes: vec![],
     };
     cs.write(outdir, shards, json!({
-        "rule": "the binary built from the working tree, run in a scratch directory on random programs (and on versions invalidated by four C06 edits) with random subsets of the 8 option flags (values incl. `private`, `Pub`, `bogus`), x {default placement, -o dir (two depths)} x {rustfmt, --no-formatting} x query file names {query.graphql, my.query.graphql, noext, .hidden.graphql, sub/dir/q.v2.gql} x {destination absent, pre-existing (short / much longer), or just written by the same command with --no-formatting} x {query path a regular file, or a symbolic link to a file of another name elsewhere}; observation: exit status, set of files created or changed, the written file parsed with syn, compared with the library called in-process with the corresponding options.",
+        "rule": "the binary built from the working tree, run in a scratch directory on random programs (and on versions invalidated by four C06 edits) with random subsets of the 8 option flags (values incl. `private`, `Pub`, `bogus`), x {default placement, -o dir (two depths)} x {rustfmt, --no-formatting} x query file names {query.graphql, my.query.graphql, noext, .hidden.graphql, sub/dir/q.v2.gql} x {destination absent, pre-existing (short / much longer), or just written by the same command with --no-formatting} x {query path a regular file, or a symbolic link to a file of another name elsewhere} x {LF, CR LF document}; observation: exit status, set of files created or changed, the written file parsed with syn, compared with the library called in-process with the corresponding options.",
         "distribution": dist, "samples": samples,
     }));
     runner::cleanup_scratch();
